@@ -35,6 +35,11 @@ let hop = function
   | L [A "snap"] -> OEff ESnap
   | x -> failwith ("rp: bad op " ^ to_string x)
 
+let expand_ops ops = List.concat_map (function
+    | L [A "absm"; c] -> [L [A "w"; L [A "he"; sstr (str_of_ascii "denied"); c]]; L [A "abort"]]
+    | L [A "mal"] | L [A "sh"] -> []
+    | o -> [o]) ops
+
 let rec stmt = function
   | L (A "use" :: ids) -> SUse (List.map nat ids)
   | L [A "group"; p; L m; L body]
@@ -44,7 +49,7 @@ let rec stmt = function
   | L [A "route"; L ms; p; main; L var; L later; name]
   (* the optional 8th element names the entry point used by the harness (add: r.Add(..).Use(var..);
      pre: NewRoute(..).Use(var..) then AddRoute): the model gives both the same meaning *)
-  | L [A "route"; L ms; p; main; L var; L later; name; A ("add" | "pre" | "attach" | "short")] ->
+  | L [A "route"; L ms; p; main; L var; L later; name; A ("add" | "pre" | "attach" | "short" | "any")] ->   (* any: Router.Any(path, main, var...) *)
     SRoute (List.map str ms, str p, nat main, List.map nat var, List.map nat later, str name)
   | L (A "nf" :: ids) -> SNotFound (List.map nat ids)
   | L (A "nal" :: ids) -> SNotAllowed (List.map nat ids)
@@ -77,7 +82,8 @@ let rec parse_case = function
       (* (an optional third element names the way the handler is written: std = a net/http handler behind an adaptor) *)
       (* mal (in-place edit of the allowed-methods list handed to the handler) and sh (SetHandlers with an application-owned
          chain as the last op of a last handler) change nothing a later op or request may observe: no model op *)
-      hs = List.map (function L (id :: L ops :: _) -> (int id, List.map hop (List.filter (fun o -> o <> L [A "mal"] && o <> L [A "sh"]) ops))
+      (* absm = AbortWithStatus(code, msg): http.Error(c.Resp, msg, code) followed by Abort() *)
+      hs = List.map (function L (id :: L ops :: _) -> (int id, List.map hop (expand_ops ops))
                             | x -> failwith ("rp: bad handler " ^ to_string x)) hs;
       reqs = List.map (function L [m; p; L sc] -> (str m, str p, List.map nat sc) | x -> failwith ("rp: bad req " ^ to_string x)) reqs;
       late_stmts = []; late_reqs = [] }
@@ -119,7 +125,11 @@ let resolve c (routes : rroute list) m p =
     | Some r -> Some r
     | None -> List.find_opt (fun r -> is_dyn r && List.exists (str_eqb m) r.r_methods &&
                                       (match parse_pat r.r_path with Some pt -> pat_matches pt p' | None -> false)) routes in
-  match find m with
+  (* a HEAD request without a route of its own is answered by the GET route *)
+  let found = match find m with
+    | None when str_eqb m (str_of_ascii "HEAD") -> find (str_of_ascii "GET")
+    | x -> x in
+  match found with
   | Some r -> RRoute r
   | None ->
     if not c.na then RNotFound else
@@ -346,6 +356,7 @@ let c05_judge cs obs =
       | Some mid when not (let ops = prog_of c (nat_of_int mid) in
                            let rec chk = function
                              | OEff (EEv t) :: (OAbort | OAbortStatus _) :: _ when int_of_nat t = 9000 + mid -> true
+                             | OEff (EEv t) :: OEff (EW (WHttpError _)) :: OAbort :: _ when int_of_nat t = 9000 + mid -> true
                              | _ :: r -> chk r | [] -> false in chk ops) -> failwith "c05: marker not followed by an abort op"
       | Some _ ->
         let st = started before in
